@@ -82,6 +82,29 @@ def run(ck, F):
             ck.violation("R2", "field-rewrite", site, f"{fn} builds Field values of its own (members may be rewritten while being inherited)", fn=fn)
     else:
         ck.ok("R2", "no-field-rewrite", "-", "Field values are only constructed by Field::try_from_node; inherited members are never rebuilt")
+    # R2: an inherited member is the base's member: no field of an existing Field value is written in place anywhere
+    from engine.rulekit import facts as factsmod
+    from engine.rulekit import scans
+    names = None
+    for st_ in F.lib.items["structs"]:
+        if st_["path"] == "model::field::Field":
+            names = [f["name"] for f in st_["variants"][0]["fields"]]
+    if names is None:
+        ck.undecided("R2", "field-struct", "-", "struct model::field::Field not found")
+    else:
+        hits = [h for h in scans.struct_value_writers(F.lib, "model::field::Field", names) if "yaserde_tests" not in h[0] and "::tests::" not in h[0]]
+        for (fn, site, fld, how) in hits:
+            ck.violation("R2", f"field-write:{fn.rsplit('::', 1)[-1]}:{fld}", site,
+                         f"{fn} modifies `{fld}` of an existing Field value ({how}): members are rewritten after they were read from their "
+                         f"declaration (inherited members lose what the declaring schema said)", fn=fn)
+        if not hits:
+            ck.ok("R2", "no-field-write", "-", "no field of an existing Field value is assigned or mutably borrowed anywhere in the library")
+        ctl = factsmod.controls()
+        chits = {h[0] for h in scans.struct_value_writers(ctl, "Member", ["name", "namespace"])}
+        if chits == {"c08_rewrite_in_loop", "c08_rewrite_through_borrow"}:
+            ck.ok("R2", "positive-control", "engine/controls/src/lib.rs", "in-place member writes of the control crate are reported, the constructor is not")
+        else:
+            ck.undecided("R2", "positive-control", "engine/controls/src/lib.rs", f"member-write scanner reports {sorted(chits)} on the controls")
     # R3 shared with C02.R4
     sub = C04._Sub(ck, "R3", lambda key: key.startswith("import_extension_fields"), only_rules=("R4",))
     C02.rule_dispatch(sub, F, None)
